@@ -9,6 +9,8 @@ from .. import sites as S
 
 # sites that depend on caller-supplied settings, not on replies: decided under C18
 SETTINGS_SITES = ("::apply_timeout|unwrap:", "utils::retry_on_timeout|overflow:Add")
+# arithmetic on Durations only ever involves the caller's timeout settings: decided under C18 as well as C01
+DURATION_MARK = "@Duration"
 
 
 def is_settings_site(s):
